@@ -344,7 +344,7 @@ pub fn cases(tier: Tier) -> Vec<Case> {
                             if cells > 4 && relabel > 0 && pose > 1 {
                                 continue;
                             }
-                            if tier == Tier::Quick && cells > 4 && (bits % 3 != 0) && (relabel > 0 || pose > 0) {
+                            if tier == Tier::Quick && cells > 4 && ((bits as u64 + seed()) % 3 != 0) && (relabel > 0 || pose > 0) {
                                 continue;
                             }
                             out.push(Case { nx, ny, bits, drop, jitter, relabel, pose, ..base("grid") });
